@@ -87,7 +87,8 @@ BUDGET = {'quick': dict(examples=8000, max_s=240),
 
 FOPTS = dict(max_len=4, max_dims=4, max_vars=4, attrs=True, masked=True,
              char=False, special_floats=True, nonfinite=True, vrange=100,
-             attr_kinds=('str', 'int', 'npfloat'))
+             attr_kinds=('str', 'int', 'npfloat'),
+             fills=[-999, -9999, -1, 99, 0, 0])
 
 OPS = ['+', '-', '*', '/', '//', '**', '%', '<', '<=', '>', '>=', '==', '!=']
 OPF = {'+': operator.add, '-': operator.sub, '*': operator.mul,
@@ -151,7 +152,7 @@ def twins(draw, fs):
             mask = [int(b) for b in draw(st.lists(st.booleans(),
                                                   min_size=size,
                                                   max_size=size))]
-            fill = -999
+            fill = draw(st.sampled_from([-999, 0]))
         fs['vars'].append(dict(name='w%d' % i, dims=list(base['dims']),
                                dtype=code, data=data, mask=mask, fill=fill,
                                attrs={}))
